@@ -802,7 +802,7 @@ DATELIKE = ['2024-02-30', '2024-13-01', '2023-02-29', '2024-00-10', '2024-01-32'
             '2024-01-01T00:00:00.1234567Z', '2024-01-01t00:00:00z']
 DATEOK = ['2024-02-29', '2024-01-01T23:59:59Z', '2024-01-01T00:00:00.5+01:30', '0001-01-01', '9999-12-31', '2024-12-31T23:59:59.999-00:00',
           '２０２４-01-01']
-CSV_STR = ['x', 'hello world', 'a,b', 'say "hi"', ' lead', 'trail ', 'q"', ',', '""', 'x,"y",z', 'tab\there', 'café', 'True', 'NULL', 'nul', '1x',
+CSV_STR = ['C:\\temp\\new', 'a\\,b', 'q\\"', 'end\\', 'x', 'hello world', 'a,b', 'say "hi"', ' lead', 'trail ', 'q"', ',', '""', 'x,"y",z', 'tab\there', 'café', 'True', 'NULL', 'nul', '1x',
            'e5', '-', '+', '0x10', '1,5', 'inf_', '--1', "it's"]
 AMBIG = ['1', '1.5', 'true', 'false', 'null', '', '2024-01-01', '1e+3', ' 7', 'nan', 'inf', '-Infinity', '1_0', ' 1 ', 'Infinity', 'NaN', '١']
 
